@@ -336,7 +336,7 @@ def oracle(c, res):
         v.fail("machinery", "result/operation count mismatch")
         return v
     # --- writer: its operations are totally ordered; tables[j] = table after j operations
-    tables, nadds = [{}], 0
+    tables, nadds, seen_ids = [{}], 0, set()
     for j, op in enumerate(w):
         t2, nadds2, want = table_apply(backend, cap, tables[-1], nadds, op)
         got = res["w"][j]
@@ -346,8 +346,15 @@ def oracle(c, res):
                 v.fail("C42", "add #%d reported out-of-space with %d/%d channels" % (j, len(tables[-1]), cap))
             elif got[:1] == [1] and full:
                 v.fail("C42", "add #%d succeeded on a full table (%d/%d)" % (j, len(tables[-1]), cap))
-            elif got[:1] == [1] and got != want:
-                v.fail("C42", "add #%d returned id %s, fresh id is %s" % (j, got[1:], want[1:]))
+            elif got[:1] == [1] and len(got) == 2:
+                # the property: ids are never reused (the exact numbering is the model's business)
+                if got[1] in seen_ids or (seen_ids and got[1] <= max(seen_ids)):
+                    v.fail("C42", "add #%d returned id %d, already used or below an earlier id (seen %s)" % (j, got[1], sorted(seen_ids)[-4:]))
+                seen_ids.add(got[1])
+                if got != want:
+                    # keep following the implementation's numbering
+                    t2 = dict(tables[-1])
+                    t2[got[1]] = (op[1], op[2], op[3], op[4], 0 if backend == "shm" else op[5])
             elif got[:1] not in ([1], [3]):
                 v.fail("C42", "add #%d unexpected result %s" % (j, got))
         elif got != want:
@@ -595,7 +602,7 @@ def draw_op(r, sim, weights, suite):
                     key = (key + 1 + r.below(NKEYS - 1)) % NKEYS
                 elif mode == 1:
                     lab = (lab + 1 + r.below(NLABELS - 1)) % NLABELS
-                return ("o", rd, c, key, lab, mode != 2, r.below(1000))
+                return ("o", rd, c, key, lab, mode != 2, r.below(200))
         if k == "dc" and mem:
             cs = [i for i, x in enumerate(sim.ctxs[rd]) if not x["dropped"]]
             if cs:
@@ -804,6 +811,7 @@ def run_suite(ctx, binp, cases, name, prop):
     for fi, ((ci, si), res) in enumerate(zip(flat, results)):
         groups.setdefault(ci, []).append((fi, res))
     mism = []
+    model_failed = None
     for mem in (False, True):
         items = [(cases[ci], rs) for ci, rs in sorted(groups.items()) if (cases[ci]["backend"] == "mem") == mem]
         if not items:
@@ -830,8 +838,8 @@ def run_suite(ctx, binp, cases, name, prop):
         for ((rc2, o), order), sh in zip(outs, shards):
             val = vlib.parse_coq_value(o) if rc2 == 0 else None
             if val is None:
-                ctx.oblige("correspondence:model-eval:" + name, False, o[-2000:])
-                return None
+                model_failed = o[-2000:]
+                continue
             mism += [sh[order[j][0]][1][order[j][1]][0] for j in val]
     t_all = time.time() - t0
     ctx.log("%s: %d runs of %d cases; impl %.1fs, total %.1fs; mismatches %d; oracle failures %d" % (
@@ -839,7 +847,7 @@ def run_suite(ctx, binp, cases, name, prop):
     # report
     mine = [f for f in fails if f[1] == prop]
     others = [f for f in fails if f[1] != prop]
-    for (fi, p, msg) in mine[:3]:
+    for (fi, p, msg) in mine[:max(0, 3 - len(ctx.violations))]:
         ci, si = flat[fi]
         c = cases[ci]
         ctx.violation("%s violated: %s" % (p, msg),
@@ -853,6 +861,8 @@ def run_suite(ctx, binp, cases, name, prop):
     if mism:
         ci, si = flat[mism[0]]
         first = "first: %s -> impl %r" % (case_line(cases[ci], cases[ci]["scheds"][si]), results[mism[0]]["raw"])
+    if model_failed is not None:
+        ctx.oblige("correspondence:model-eval:" + name, False, model_failed)
     ctx.oblige("correspondence:model=impl:" + name, not mism, "model and implementation differ on runs %s; %s" % (mism[:5], first[:3000]))
     return {"runs": len(flat), "cases": len(cases), "results": results, "flat": flat, "mismatches": mism,
             "oracle_failures": fails, "t_impl": t_impl, "t_all": t_all}
@@ -902,7 +912,8 @@ def standard_check(ctx, prop, cfg):
              conc2_quick / conc2_thorough: (scenario pairs, schedules per pair or None for exhaustive),
              rand: (profile, quick_cases, thorough_cases)}"""
     vlib.regen(ctx)
-    vlib.prove(ctx)
+    # the models are rebuilt even when a pinned lemma of the proof cone no longer compiles
+    vlib.prove(ctx, extra_targets=["model/Shm.vo", "model/MemAfc.vo"])
     binp = vlib.cargo_build(ctx, "hx-shm", bin=prop.lower())
     if not binp:
         return
